@@ -108,6 +108,9 @@ func (i *Interp) arrMethod(nat *Native, recv V, args []V) V {
 		if len(args) != 1 {
 			rt("expected 1 argument(s)")
 		}
+		if args[0].K == KUnset {
+			return Bool(false)
+		}
 		for _, e := range a.E {
 			if Compare3(args[0], e.V) == 0 {
 				return Bool(true)
